@@ -20,7 +20,7 @@ from pv.gen.base import pick
 from pv.harness import ROOT, Hyp, Machine, tmpdir
 from pv.props.common import short
 from pv.ref import cli, graphm, interp
-from pv.ref.role import build_model
+from pv.ref.role import build_model, build_table
 
 ID = 'C17'
 TECHNIQUE = 'Hypothesis rule-based state machine over a pool of shared trees/graphs: by-value snapshots of every argument after every call, repeat-call and earlier-call equality; the same histories re-executed on pickled arguments and in fresh interpreters under PYTHONHASHSEED 1, 2 and random, compared by digest; CLI output bytes compared across hash seeds'
@@ -306,6 +306,9 @@ def _pool_spec(draw):
     spec = {'name': draw(st.sampled_from(['amr', 'amr', 'default', 'mini']))}
     concepts = trees.CONCEPTS + ['have-mod-91', 'own-01', 'be-located-at-91']
     ts = [draw(trees.wf_trees(spec, max_nodes=5, concepts=concepts, emptyconcept=False)) for _ in range(3)]
+    table = build_table(spec)
+    if table['reifications']:
+        ts = [trees.reify_in_tree(draw, t, table, prob=(1, 3)) if draw(st.booleans()) else t for t in ts]
     if draw(st.booleans()):
         ts[2] = ts[0] if draw(st.booleans()) else ts[2]     # overlapping graphs make | and - interesting
     return spec, ts
@@ -389,12 +392,14 @@ def _machine(report):
 
 
 def stages(tier):
+    # NB: the first example of every Hypothesis run is the minimal one (trivial batch), so each shard gets several examples;
+    # batches are small (6 sub-cases) because larger composite draws overrun Hypothesis' entropy buffer
     if tier == 'quick':
         return [
             Machine('shared-argument-machine', _machine, (1500, 15), (30000, 40)),
-            Hyp('hash-seed-batches', lambda: _batch(25), 12, 200, shards=12),
+            Hyp('hash-seed-batches', lambda: _batch(6), 72, 72, shards=12),
         ]
     return [
         Machine('shared-argument-machine', _machine, (1500, 15), (30000, 40)),
-        Hyp('hash-seed-batches', lambda: _batch(50), 12, 96, shards=16),
+        Hyp('hash-seed-batches', lambda: _batch(6), 72, 1600, shards=16),
     ]
